@@ -301,6 +301,29 @@ func (g *SynGrammar) randomSentence(rng *rand.Rand, maxLen int) ([]int, bool) {
 // pRec an alternative that contains a nonterminal is preferred while the length budget lasts
 // (deep derivations: long recursive chains, cascades of reductions).
 func (g *SynGrammar) randomSentenceD(rng *rand.Rand, maxLen, maxDepth int, pRec float64) ([]int, bool) {
+	return g.randomSentenceP(rng, maxLen, maxDepth, pRec, -1, 0)
+}
+
+// randomSentencePump: one directly recursive alternative (its head occurs in its body) is
+// applied k times in a row before anything else happens to that nonterminal: a chain of k
+// nested uses (left, right or middle recursion), longer than any table of the parser.
+func (g *SynGrammar) randomSentencePump(rng *rand.Rand, k int) ([]int, bool) {
+	var rec []int
+	for pi, p := range g.Prods {
+		for _, s := range p.Body {
+			if s.NT && s.Idx == p.Head {
+				rec = append(rec, pi)
+				break
+			}
+		}
+	}
+	if len(rec) == 0 {
+		return nil, false
+	}
+	return g.randomSentenceP(rng, 16, 6+k, 0, rec[rng.Intn(len(rec))], k)
+}
+
+func (g *SynGrammar) randomSentenceP(rng *rand.Rand, maxLen, maxDepth int, pRec float64, pump, pumpN int) ([]int, bool) {
 	pr := g.productive()
 	if !pr[0] {
 		return nil, false
@@ -338,6 +361,31 @@ func (g *SynGrammar) randomSentenceD(rng *rand.Rand, maxLen, maxDepth int, pRec 
 	if minProd[0] < 0 {
 		return nil, false
 	}
+	// reach[a][b]: b occurs in some sentential form derived from a (reflexive)
+	n := len(g.NTs)
+	reach := make([][]bool, n)
+	for i := range reach {
+		reach[i] = make([]bool, n)
+		reach[i][i] = true
+	}
+	if pRec > 0 {
+		for again := true; again; {
+			again = false
+			for _, p := range g.Prods {
+				for _, s := range p.Body {
+					if !s.NT {
+						continue
+					}
+					for b := 0; b < n; b++ {
+						if reach[s.Idx][b] && !reach[p.Head][b] {
+							reach[p.Head][b] = true
+							again = true
+						}
+					}
+				}
+			}
+		}
+	}
 	var out []int
 	budget := maxLen
 	var expand func(nt int, depth int) bool
@@ -364,7 +412,15 @@ func (g *SynGrammar) randomSentenceD(rng *rand.Rand, maxLen, maxDepth int, pRec 
 			return false
 		}
 		var p SynProd
-		if depth > maxDepth || len(out) >= budget {
+		if pump >= 0 && pumpN > 0 && g.Prods[pump].Head == nt {
+			pumpN--
+			p = g.Prods[pump]
+			for _, s := range p.Body {
+				if (s.NT && !pr[s.Idx]) || (!s.NT && s.Idx == g.errTerm()) {
+					return false
+				}
+			}
+		} else if depth > maxDepth || len(out) >= budget {
 			if minProd[nt] < 0 || depth > maxDepth+200 {
 				return false
 			}
@@ -372,10 +428,11 @@ func (g *SynGrammar) randomSentenceD(rng *rand.Rand, maxLen, maxDepth int, pRec 
 		} else {
 			p = cands[rng.Intn(len(cands))]
 			if pRec > 0 && rng.Float64() < pRec {
+				// alternatives through which the nonterminal comes back to itself
 				var rec []SynProd
 				for _, q := range cands {
 					for _, s := range q.Body {
-						if s.NT {
+						if s.NT && reach[s.Idx][nt] {
 							rec = append(rec, q)
 							break
 						}
@@ -394,7 +451,10 @@ func (g *SynGrammar) randomSentenceD(rng *rand.Rand, maxLen, maxDepth int, pRec 
 			} else {
 				out = append(out, g.termID(s.Idx))
 			}
-			if len(out) > 4*maxLen+20 {
+			if len(out) > 4*maxLen+20 && pump < 0 {
+				return false
+			}
+			if len(out) > 600 {
 				return false
 			}
 		}
@@ -446,7 +506,13 @@ func synInputs(rng *rand.Rand, g *SynGrammar, k, cap, nSent int, withInvalid boo
 	}
 	// two deep sentences: recursion chains longer than the parser has states
 	for i := 0; i < 2; i++ {
-		if s, ok := g.randomSentenceD(rng, 60+rng.Intn(60), 90, 0.85); ok && len(s) > 24 {
+		if s, ok := g.randomSentenceD(rng, 60+rng.Intn(60), 90, 0.95); ok && len(s) > 24 {
+			all = append(all, s)
+		}
+	}
+	// and two pumped ones
+	for i := 0; i < 2; i++ {
+		if s, ok := g.randomSentencePump(rng, 40); ok {
 			all = append(all, s)
 		}
 	}
